@@ -480,26 +480,34 @@ func mainC03(seed uint64, n int, out string, rp *replayInput) {
 			}
 			return
 		}
+		vc, vr, note := c, r, ""
 		if key, mech := classify(c, r.sig.failF1, r.sig.failPrefix, r.sig.failDepth); key != "" {
-			recordFinding(sum, key, mech+r.viol.what, c, r.sig, func() (Case, string) {
-				sc := shrink03(c, r.cut, func(cand Case, rc *res03) bool {
-					k, _ := classify(cand, rc.sig.failF1, rc.sig.failPrefix, rc.sig.failDepth)
-					return k == key
+			// evidence of the cache mechanism: the identical history is clean with ample capacities
+			ra := runC03(ample(c))
+			if ra.viol == nil {
+				sum.Count("ample_rerun", "clean")
+				recordFinding(sum, key, mech+r.viol.what, c, r.sig, func() (Case, string) {
+					sc := shrink03(c, r.cut, func(cand Case, rc *res03) bool {
+						k, _ := classify(cand, rc.sig.failF1, rc.sig.failPrefix, rc.sig.failDepth)
+						return k == key && runC03(ample(cand)).viol == nil
+					})
+					what := mech + r.viol.what
+					if r2 := runC03(sc); r2.viol != nil {
+						_, m2 := classify(sc, r2.sig.failF1, r2.sig.failPrefix, r2.sig.failDepth)
+						what = m2 + r2.viol.what
+					}
+					return sc, what
 				})
-				what := mech + r.viol.what
-				if r2 := runC03(sc); r2.viol != nil {
-					_, m2 := classify(sc, r2.sig.failF1, r2.sig.failPrefix, r2.sig.failDepth)
-					what = m2 + r2.viol.what
-				}
-				return sc, what
-			})
-			return
+				return
+			}
+			sum.Count("ample_rerun", "failed")
+			vc, vr, note = ample(c), ra, "fails with ample capacities too"
 		}
-		sum.Count("violations", r.viol.kind+"/"+c.Backend)
-		sc, what := c, r.viol.what
-		if firstOfItsKind(r.viol.kind, c) {
-			kind := r.viol.kind
-			sc = shrink03(c, r.cut, func(cand Case, rc *res03) bool {
+		sum.Count("violations", vr.viol.kind+"/"+vc.Backend)
+		sc, what := vc, vr.viol.what
+		if firstOfItsKind(vr.viol.kind, vc) {
+			kind := vr.viol.kind
+			sc = shrink03(vc, vr.cut, func(cand Case, rc *res03) bool {
 				k, _ := classify(cand, rc.sig.failF1, rc.sig.failPrefix, rc.sig.failDepth)
 				return rc.viol.kind == kind && k == ""
 			})
@@ -507,9 +515,14 @@ func mainC03(seed uint64, n int, out string, rp *replayInput) {
 				what = r2.viol.what
 			}
 		}
-		sum.Violations = append(sum.Violations, map[string]any{"what": what, "case": sc, "evicting_config": evicting(c),
-			"node_cap_vs_max_path_depth":       fmt.Sprintf("%d vs %d", c.NodeCap, r.sig.failDepth),
-			"sig_dirty_node_with_evicted_leaf": r.sig.failF1, "sig_dirty_pointer_without_node": r.sig.failF2, "had_prefix_pair": r.sig.failPrefix})
+		v := map[string]any{"what": what, "case": sc, "evicting_config": evicting(vc),
+			"node_cap_vs_max_path_depth":       fmt.Sprintf("%d vs %d", vc.NodeCap, vr.sig.failDepth),
+			"sig_dirty_node_with_evicted_leaf": vr.sig.failF1, "sig_dirty_pointer_without_node": vr.sig.failF2, "had_prefix_pair": vr.sig.failPrefix}
+		if note != "" {
+			v["note"] = note
+			v["original_case"] = c
+		}
+		sum.Violations = append(sum.Violations, v)
 	}
 	if rp != nil {
 		if rp.single != nil {
